@@ -152,7 +152,7 @@ def fault_line(rng, kind, prog):
     if kind == "undefined-symbol":
         return rng.choice(["#d8 undefined_sym_x", "zrange undefined_sym_x", "#d16 1, nothere + 1"])
     if kind == "out-of-range":
-        return rng.choice(["zrange 256", "zrange -1", "#d8 256", "#d4 0x1f", "zrange 0x1ff"])
+        return rng.choice(["zrange 256", "zrange -1", "#d8 256", "#d4 0x1f", "zrange 0x1ff", "zfn 16", "zfn -1"])
     if kind == "duplicate-label":
         return None
     if kind == "malformed-directive":
@@ -162,7 +162,7 @@ def fault_line(rng, kind, prog):
 
 
 # a valid line of the same size for every faulty line that has one
-VALID_TWIN = {"zrange 256": "zrange 25", "zrange -1": "zrange 1", "#d8 256": "#d8 25", "#d4 0x1f": "#d4 0xf", "zrange 0x1ff": "zrange 0x1f",
+VALID_TWIN = {"zfn 16": "zfn 6", "zfn -1": "zfn 1", "zrange 256": "zrange 25", "zrange -1": "zrange 1", "#d8 256": "#d8 25", "#d4 0x1f": "#d4 0xf", "zrange 0x1ff": "zrange 0x1f",
               "#d8 undefined_sym_x": "#d8 0", "zrange undefined_sym_x": "zrange 0", "#d16 1, nothere + 1": "#d16 1, 0 + 1"}
 MISSING_OPERAND = ("#res", "#align", "#addr", "#d8", "zq_tmp =", "#d8 1 +", "#d16 2 *")
 
@@ -255,6 +255,9 @@ def fault_case(ctx, rng, worker):
     prog = base_program(rng)
     src = G.render(prog)
     head, sep, body = src.partition("\n\n")
+    # an operand range enforced by an assert inside a user function that the rule's production calls
+    head += "\n#fn zchk(v) =>\n{\n    assert(v >= 0 && v < 16, \"zfn operand\")\n    v`8\n}\n#ruledef\n{\n    zfn {v} => 0x98 @ zchk(v)\n}"
+    src = head + sep + body
     body_lines = [l for l in body.split("\n")]
     while body_lines and body_lines[-1] == "":
         body_lines.pop()
